@@ -310,8 +310,8 @@ def x10_fold(F, R, b, where, level, opfns):
                             return op
                     if t[0] in ('load0', 'load') and s_.endswith('.op)') or s_.endswith('.op'):
                         return op
-                    if t[0] in ('load0', 'load') and (s_.endswith('.len)') or s_.endswith('.len')):
-                        return ln
+                    if t[0] in ('load0', 'load', 'field') and (s_.endswith('.len)') or s_.endswith('.len')):
+                        return ln      # header taken by reference (load) or by value (field of the parameter)
                     if t[0] == 'call' and t[2].endswith('::get') and len(t[3]) == 1 and fmt(t[3][0]).endswith('.len)'):
                         return ln      # little-endian wrapper's accessor on the length field
                     if 'log::' in s_:
